@@ -275,17 +275,17 @@ def mixed_hydrogens(rng: random.Random):
     kind = rng.choice(["pair", "ring", "chain", "star", "two-waters"])
     if kind == "two-waters":
         heavy, hb = [Atom("O"), Atom("O")], []
-        patterns = [[rng.choice([0, 2, 3]), rng.choice([0, 2, 3])] for _ in range(2)]
+        patterns = [[rng.choice([0, 1, 2, 3]), rng.choice([0, 2, 3])] for _ in range(2)]
     else:
         n = {"pair": 2, "ring": rng.randint(3, 6), "chain": rng.randint(3, 5), "star": rng.randint(3, 5)}[kind]
         sym = rng.choice(["C", "C", "N", "Si"])
         heavy = [Atom(sym) for _ in range(n)]
         hb = ([(0, 1)] if kind == "pair" else [(i, (i + 1) % n) for i in range(n)] if kind == "ring" else [(i, i + 1) for i in range(n - 1)] if kind == "chain"
               else [(0, i) for i in range(1, n)])
-        base = [rng.choice([0, 0, 2, 3]) for _ in range(rng.randint(2, 3))]
+        base = [rng.choice([0, 0, 1, 2, 3]) for _ in range(rng.randint(2, 3))]  # 1 = explicitly labelled protium
         patterns = []
         for k in range(n):
-            pat = list(base) if rng.random() < 0.75 else [rng.choice([0, 2, 3]) for _ in range(rng.randint(1, 3))]
+            pat = list(base) if rng.random() < 0.75 else [rng.choice([0, 1, 2, 3]) for _ in range(rng.randint(1, 3))]
             rng.shuffle(pat)
             patterns.append(pat)
     atoms = list(heavy)
